@@ -182,6 +182,11 @@ def step (d : DSt) (w : List String) : DSt × String :=
     | none => (d, "bad-op")
   | ["r", "arr", "self"] =>
     if d.arr.isEmpty ∨ !arrOk m d.arr.length then (d, "bad-op") else arrAssign d m d.arr d.arr
+  | ["r", "arr", "raw", ns] =>
+    -- the array handle is re-used as a raw buffer: every reference it held is released (then the buffer is dropped)
+    match ns.toNat? with
+    | some n => if d.arr.isEmpty ∨ n > 4096 then (d, "bad-op") else arrAssign d m d.arr []
+    | none => (d, "bad-op")
   | ["r", "arr", "drop"] =>
     if d.arr.isEmpty then (d, "bad-op") else arrAssign d m d.arr []
   | ["r", "traits", which] =>
